@@ -1,4 +1,95 @@
-/- Driver for C03 (stub: not built yet). -/
+import SkVerif.Model.Cores
+import SkVerif.Drv.Parse
 namespace SkVerif.Drv.C03
-def handle (_toks : List String) : String := "bad-op"
+open SkVerif SkVerif.Fc SkVerif.Drv
+
+def showErr : Err → String
+  | .notFitted => "E:notfitted" | .value => "E:value" | .type => "E:type" | .index => "E:index"
+  | .notImpl => "E:notimpl"
+
+def parseSeries? (s : String) : Option Series :=
+  if s == "-" then some []
+  else (s.splitOn ",").mapM (fun t =>
+    match t.splitOn ":" with
+    | [l, v] => do
+        let l ← parseInt? l
+        let v ← parseORat? v
+        pure (l, v)
+    | _ => none)
+
+def parseFhArg? (s : String) : Option (Option FhArg) :=
+  if s == "none" then some none
+  else match s.splitOn ":" with
+    | ["r", vs] => (parseIntList? vs).map (fun v => some (v, true))
+    | ["a", vs] => (parseIntList? vs).map (fun v => some (v, false))
+    | _ => none
+
+def parseCv? (s : String) : Option (Option CvSpec) :=
+  if s == "none" then some none
+  else match s.splitOn ":" with
+    | [k, fh, wl, step, iw, sww] => do
+        let k ← if k == "s" then some Split.Kind.sliding else if k == "e" then some Split.Kind.expanding else none
+        let fh ← parseIntList? fh
+        let wl ← parseInt? wl
+        let step ← parseInt? step
+        let iw ← if iw == "none" then some none else (parseInt? iw).map some
+        let sww ← parseBool? sww
+        pure (some ⟨k, fh, wl, step, iw, sww⟩)
+    | _ => none
+
+def parseOp? (s : String) : Option Op :=
+  match s.splitOn "|" with
+  | ["fit", y, fh] => do pure (Op.fit (← parseSeries? y) (← parseFhArg? fh))
+  | ["pred", fh] => do pure (Op.predict (← parseFhArg? fh))
+  | ["upd", y, b] => do pure (Op.update (← parseSeries? y) (← parseBool? b))
+  | ["up", y, cv, b] => do pure (Op.updatePredict (← parseSeries? y) (← parseCv? cv) (← parseBool? b))
+  | ["ups", y, fh, b] => do pure (Op.updatePredictSingle (← parseSeries? y) (← parseFhArg? fh) (← parseBool? b))
+  | _ => none
+
+def parseCore? (s : String) : Option (Core × Bool) :=
+  match s.splitOn ":" with
+  | ["last"] => some (coreLast, false)
+  | ["mean", "none"] => some (coreMean none, false)
+  | ["mean", w] => (parseInt? w).map (fun k => (coreMean (some k), false))
+  | ["probe", w] => (parseInt? w).map (fun k => (coreProbe k, false))
+  | ["opaque"] => some (coreOpaque, true)
+  | _ => none
+
+def showVal (opq : Bool) (v : ORat) : String := if opq then "?" else showORat v
+
+def showSeries (opq : Bool) (s : Series) : String :=
+  if s.isEmpty then "-" else ",".intercalate (s.map (fun o => s!"{o.1}:{showVal opq o.2}"))
+
+def showOut (opq : Bool) : Out → String
+  | .done => "ok"
+  | .series s => s!"S[{showSeries opq s}]"
+  | .frame cols rows =>
+      let rs := rows.map (fun r => s!"{r.1}:" ++ "~".intercalate (r.2.map (showVal opq)))
+      s!"F[{showIntList cols}|{",".intercalate rs}]"
+  | .err e => showErr e
+
+def showState (opq : Bool) (s : FState) : String :=
+  let c := match s.cutoff with | some c => toString c | none => "none"
+  let fh := match s.fh with
+    | some f => (if f.rel then "r:" else "a:") ++ showIntList f.vals
+    | none => "none"
+  if opq then "{" ++ s!"{showBool s.fitted},{c},?,?" ++ "}"
+  else "{" ++ s!"{showBool s.fitted},{c},{s.y.length},{fh}" ++ "}"
+
+def runShow (core : Core) (opq : Bool) (mode : FhMode) : FState → List Op → List String
+  | s, [] => [if opq then "Y[?]" else s!"Y[{showSeries false s.y}]"]
+  | s, op :: ops =>
+    let (s1, o) := step core mode s op
+    (showOut opq o ++ showState opq s1) :: runShow core opq mode s1 ops
+
+/-- `run <core> <mode o|r> <op> <op> ...` -/
+def handle (toks : List String) : String :=
+  match toks with
+  | "run" :: core :: mode :: ops =>
+    match parseCore? core, (if mode == "o" then some FhMode.optional else if mode == "r" then some FhMode.required else none),
+          ops.mapM parseOp? with
+    | some (c, opq), some m, some ops => " ".intercalate (runShow c opq m {} ops)
+    | _, _, _ => "bad-op"
+  | _ => "bad-op"
+
 end SkVerif.Drv.C03
